@@ -885,7 +885,7 @@ var dscResolveEnts = [][]uint{{0}, {1}, {2}, {1, 1}, {1, 2}, {3}, {0, 0}, {1, 1,
 //     feature of it likewise (a feature number listed twice in one entity: to a feature with that address);
 //     whatever Entity() / FeatureByAddress() return is reported; an unreported address resolves to nil.
 //   - the returned text is the canonical observation the model driver's `resolve` op answers.
-func (w *dscWorld) dscResolve(r *h.Report, done []string, pn int) (line, impl string) {
+func (w *dscWorld) dscResolve(r *h.Report, done []string, pn int, evs []string) (line, impl string) {
 	p := w.peers[pn]
 	ents := p.rdev.Entities()
 	fail := func(key, format string, a ...any) {
@@ -1018,7 +1018,17 @@ func (w *dscWorld) dscResolve(r *h.Report, done []string, pn int) (line, impl st
 		qfAsk = append(qfAsk, x[:strings.Index(x, "=")])
 	}
 	line = fmt.Sprintf("resolve %d %s | %s", pn, strings.Join(qe, " "), strings.Join(qfAsk, " "))
-	impl = fmt.Sprintf("D %s | A %s | RE %s | RF %s", dscDevTok(p.rdev.Address()), j(aParts, ";"), j(reParts, ","), j(rfParts, ","))
+	// the SKIs the entity events of this message carried, as peer numbers ("ski1" -> 1); the SPEC monitor of the
+	// event clause has already judged them against the sender's SKI
+	kset := map[string]bool{}
+	for _, e := range evs {
+		k := e[strings.LastIndex(e, "@")+1:]
+		if n, err := strconv.Atoi(strings.TrimPrefix(k, "ski")); err == nil && strings.HasPrefix(k, "ski") {
+			k = strconv.Itoa(n)
+		}
+		kset[k] = true
+	}
+	impl = fmt.Sprintf("D %s | A %s | RE %s | RF %s | K %s", dscDevTok(p.rdev.Address()), j(aParts, ";"), j(reParts, ","), j(rfParts, ","), j(keys(kset), ","))
 	return line, impl
 }
 
@@ -1175,6 +1185,7 @@ func runDscHistory(r *h.Report, d *h.Driver, ops []string, st *dscStats) {
 		}
 		done = append(done, op)
 		var impl, line, kind string
+		var stepEvs []string // entity events of this step, with the SKI they carry
 		switch f[0] {
 		case "msg":
 			m, ok := dscParseMsg(op)
@@ -1194,6 +1205,7 @@ func runDscHistory(r *h.Report, d *h.Driver, ops []string, st *dscStats) {
 			otherAfter, _, _ := w.observeTree(other)
 			regAfter := w.observeReg()
 			evs := w.evh.take()
+			stepEvs = evs
 			// ---- SPEC monitor (no model involved)
 			want, wantEv, specified := dscSpecApply(prev, m)
 			mixed := dscMixed(prev, m)
@@ -1342,7 +1354,7 @@ func runDscHistory(r *h.Report, d *h.Driver, ops []string, st *dscStats) {
 			// addresses (device part included) and Entity() / FeatureByAddress(): SPEC on the implementation's own
 			// answers, then the same observation from the model (Spine.Disc.findE / resolveF / Dev)
 			pn, _ := strconv.Atoi(f[1])
-			rline, rimpl := w.dscResolve(r, done, pn)
+			rline, rimpl := w.dscResolve(r, done, pn, stepEvs)
 			r.Eval("resolve", "")
 			if d != nil && line != "" {
 				want := d.Ask(rline)
